@@ -74,6 +74,15 @@ pub fn alphabet(g: &Grammar) -> Vec<char> {
     for r in &g.raw {
         walk(&r.expr, &mut v);
     }
+    // grammars that mention Unicode property rules get the candidate characters as well
+    let mut ids = vec![];
+    for r in &g.raw {
+        r.expr.idents(&mut ids);
+    }
+    if ids.iter().any(|n| !g.has(n) && pest::unicode::by_name(n).is_some()) {
+        v.extend(UNICODE_CANDIDATES.iter().copied());
+        v.extend(['\u{ff}', '\u{100}', '\u{2b0}', '\u{370}', '\u{3ff}', '\u{400}', '\u{4e00}', '\u{9fff}', '\u{a000}', '\u{10000}', '\u{1f600}', '\u{e000}', '\u{fffd}']);
+    }
     v.sort();
     v.dedup();
     v
